@@ -909,13 +909,30 @@ fn process_fn_common(
             an.visit_block_mut(b);
             if let Some(c) = contract {
                 if c.proof_end.is_some() {
-                    // only legal when the body's last statement is not a tail expression
+                    // placed after the last statement; if the body ends in a tail expression the block goes just before it,
+                    // which is only allowed when that expression is effect-free (a path, literal, or a constructor of such)
+                    let mid = syn::Ident::new(&format!("vx_proof_end_{}", fn_idx), Span::call_site());
                     let tail = matches!(b.stmts.last(), Some(syn::Stmt::Expr(_, None)));
                     if tail {
-                        die(format!("{}: `proof end` requires a body without tail expression", key));
+                        fn pure(e: &syn::Expr) -> bool {
+                            match e {
+                                syn::Expr::Path(_) | syn::Expr::Lit(_) => true,
+                                syn::Expr::Call(c) => matches!(&*c.func, syn::Expr::Path(p) if p.path.segments.last().map(|s| s.ident.to_string().chars().next().map(|ch| ch.is_uppercase()).unwrap_or(false)).unwrap_or(false)) && c.args.iter().all(pure),
+                                syn::Expr::Tuple(t) => t.elems.iter().all(pure),
+                                syn::Expr::Paren(p) => pure(&p.expr),
+                                syn::Expr::Reference(r) => pure(&r.expr),
+                                syn::Expr::Field(f) => pure(&f.base),
+                                _ => false,
+                            }
+                        }
+                        if let Some(syn::Stmt::Expr(e, None)) = b.stmts.last() {
+                            if !pure(e) { die(format!("{}: `proof end` needs an effect-free tail expression", key)); }
+                        }
+                        let n = b.stmts.len();
+                        b.stmts.insert(n - 1, syn::parse_quote!(#mid!();));
+                    } else {
+                        b.stmts.push(syn::parse_quote!(#mid!();));
                     }
-                    let mid = syn::Ident::new(&format!("vx_proof_end_{}", fn_idx), Span::call_site());
-                    b.stmts.push(syn::parse_quote!(#mid!();));
                 }
                 if c.ghost_begin.is_some() {
                     let mid = syn::Ident::new(&format!("vx_ghost_begin_{}", fn_idx), Span::call_site());
@@ -1015,7 +1032,7 @@ fn main() {
         for c in contracts.fns.values_mut() {
             c.requires.retain(|cl| cl.strength != "beyond-property");
             c.ensures.retain(|cl| cl.strength != "beyond-property");
-            for l in c.loops.values_mut() { l.invariants.retain(|cl| cl.strength != "beyond-property"); }
+            for l in c.loops.values_mut() { l.invariants.retain(|cl| cl.strength != "beyond-property"); l.ensures.retain(|cl| cl.strength != "beyond-property"); l.invariants_except_break.retain(|cl| cl.strength != "beyond-property"); }
             for l in c.closures.values_mut() { l.requires.retain(|cl| cl.strength != "beyond-property"); l.ensures.retain(|cl| cl.strength != "beyond-property"); }
         }
     }
@@ -1400,7 +1417,13 @@ fn main() {
                 }
                 continue;
             }
-            if let Some(rest) = parse_placeholder(trimmed, "#[vx_loop_", "]") {
+            let loop_inline: Option<(String, String)> = line.find("#[vx_loop_").map(|pos| {
+                let after = &line[pos + "#[vx_loop_".len()..];
+                let close = after.find(']').unwrap();
+                (after[..close].to_string(), after[close + 1..].trim_start().to_string())
+            });
+            if let Some((rest, rest_of_line)) = loop_inline {
+                let rest = rest.as_str();
                 let mut it = rest.split('_');
                 let n: usize = it.next().unwrap().parse().unwrap();
                 let k: usize = it.next().unwrap().parse().unwrap();
@@ -1408,22 +1431,26 @@ fn main() {
                 let key = gen.fns[gi].key.clone();
                 let lc = &contracts.fns[&key].loops[&k];
                 push_line(&mut final_out, &mut line_no, &format!("{}#[verus_spec(", indent));
-                if !lc.invariants.is_empty() {
-                    push_line(&mut final_out, &mut line_no, &format!("{}    invariant", indent));
-                    for cl in &lc.invariants {
+                for (kw, cls) in [("invariant_except_break", &lc.invariants_except_break), ("invariant", &lc.invariants), ("ensures", &lc.ensures)] {
+                    if cls.is_empty() { continue; }
+                    push_line(&mut final_out, &mut line_no, &format!("{}    {}", indent, kw));
+                    for cl in cls {
                         let start = line_no + 1;
                         let lines: Vec<&str> = cl.text.lines().collect();
                         for (kk, l) in lines.iter().enumerate() {
                             let comma = if kk + 1 == lines.len() { "," } else { "" };
                             push_line(&mut final_out, &mut line_no, &format!("{}        {}{}", indent, l, comma));
                         }
-                        gen.fns[gi].clauses.push(ClauseOut { name: cl.name.clone(), kind: format!("loop{}-invariant", k), strength: cl.strength.clone(), text: cl.text.clone(), out_line_start: start, out_line_end: line_no, src_line: cl.src_line });
+                        gen.fns[gi].clauses.push(ClauseOut { name: cl.name.clone(), kind: format!("loop{}-{}", k, kw), strength: cl.strength.clone(), text: cl.text.clone(), out_line_start: start, out_line_end: line_no, src_line: cl.src_line });
                     }
                 }
                 if let Some(d) = &lc.decreases {
                     push_line(&mut final_out, &mut line_no, &format!("{}    decreases {},", indent, d));
                 }
                 push_line(&mut final_out, &mut line_no, &format!("{})]", indent));
+                if !rest_of_line.is_empty() {
+                    push_line(&mut final_out, &mut line_no, &format!("{}{}", indent, rest_of_line));
+                }
                 continue;
             }
             if let Some(pos) = line.find("#[vx_closure_") {
